@@ -281,7 +281,7 @@ func (c *Check) Finish() int {
 		"exhaustive":          true,
 		"not_covered":         c.NotCovered,
 		"notes":               c.Notes,
-		"trusted_base":        c.Trust,
+		"trusted_base":        append([]string{}, c.Trust...),
 	}
 	ev := map[string]any{
 		"property_id": c.ID,
